@@ -288,4 +288,5 @@ class StringLiteral(BaseType):
     def _repr_literals(self):
         if self._overflow:
             return '...'
-        return ','.join(self._literals)
+        # Unambiguous and independent of set order: this string is the identity of the type (hash string)
+        return json.dumps(sorted(self._literals))
